@@ -11,7 +11,7 @@ predicate `order`s); `impl` runs the probe and returns the event trace + outcome
 (lean/PyramidModel/Security.lean through drv_c05) predicts the same trace; the oracle below states the property
 directly on the implementation's trace.
 """
-import itertools, json, os, shutil, tempfile, warnings
+import importlib.util, itertools, json, os, shutil, sys, tempfile, warnings
 
 from zope.interface import Interface, providedBy, implementedBy
 
@@ -24,7 +24,8 @@ from pyramid.request import Request
 from pyramid.response import Response
 from pyramid.security import Allowed, Denied, NO_PERMISSION_REQUIRED, view_execution_permitted
 from pyramid.tweens import EXCVIEW
-from pyramid.view import render_view_to_response
+from pyramid.view import (render_view_to_response, view_defaults, view_config, forbidden_view_config,
+                          notfound_view_config, exception_view_config)
 
 import vfutil
 
@@ -32,7 +33,8 @@ RULE = ('one case = one application (security policy present/absent, delivered b
         'Configurator constructor or the legacy authn/authz pair; default permission unset/set; 1-7 view '
         'statements over add_view / add_forbidden_view / add_notfound_view / add_exception_view / '
         'add_static_view x permission absent/name/NO_PERMISSION_REQUIRED x function/class/attr/instance views, '
-        'decorators, renderers, wrapper views, predicates, route-bound or traversal, exception contexts, '
+        'decorators, renderers, wrapper views, predicates, route-bound or traversal, exception contexts, class views '
+        'with @view_defaults on the class / a base class / both, registered by add_view or by @view_config + scan, '
         'exception_only) written in shuffled statement order in one commit scope, a policy decision table, '
         'and one probe; a case is non-trivial when a security policy is configured and the probe reaches at '
         'least one view whose effective permission is set (a permits call is logged or a protected body is '
@@ -209,10 +211,12 @@ def transparent_decorator(view):
     return decorated
 
 
-def make_view(world, v):
-    """-> (view object, attr) for this view statement"""
-    tag, act, renderer = v['tag'], v.get('act', 'ok'), v.get('renderer')
+def req_ctx(request):
+    exc = getattr(request, 'exception', None)
+    return exc if exc is not None else request.context
 
+
+def make_body(world, tag, act, renderer):
     def body(context, request):
         world.log.append(['b', tag, ctx_id(context)])
         if act != 'ok':
@@ -223,12 +227,16 @@ def make_view(world, v):
         r = Response('t%d' % tag)
         r.headers['X-Tag'] = str(tag)
         return r
+    return body
 
-    def req_ctx(request):
-        exc = getattr(request, 'exception', None)
-        return exc if exc is not None else request.context
 
+def make_view(world, v):
+    """-> (view object, attr) for this view statement"""
+    tag, act, renderer = v['tag'], v.get('act', 'ok'), v.get('renderer')
+    body = make_body(world, tag, act, renderer)
     kind = v.get('kind', 'func2')
+    if v.get('vd') and kind in CLASS_KINDS:
+        return make_class_view(world, v)
     if kind == 'func2':
         def view(context, request):
             return body(context, request)
@@ -274,6 +282,119 @@ def make_view(world, v):
     raise ValueError(kind)
 
 
+CLASS_KINDS = ('class2', 'class1', 'class_attr')
+
+
+def vd_kwargs(spec):
+    """the keyword arguments of `@view_defaults(...)` for a class-defaults spec: 'absent' = decorated, but without a
+    permission (a harmless other default), else a permission"""
+    if spec == 'absent':
+        return {'http_cache': 0}
+    return {'permission': perm_value(spec)}
+
+
+def make_class_view(world, v):
+    """a class view built as Base -> Sub, either of which may carry `@view_defaults`; -> (Sub, attr)"""
+    tag, act, renderer, kind = v['tag'], v.get('act', 'ok'), v.get('renderer'), v.get('kind')
+    body = make_body(world, tag, act, renderer)
+    vd = v.get('vd') or {}
+    if kind == 'class1':
+        class Base:
+            def __init__(self, request):
+                self.request = request
+
+            def __call__(self):
+                return body(req_ctx(self.request), self.request)
+    else:
+        class Base:
+            def __init__(self, context, request):
+                self.context, self.request = context, request
+
+            def __call__(self):
+                return body(self.context, self.request)
+
+            def go(self):
+                return body(self.context, self.request)
+    if vd.get('base') is not None:
+        Base = view_defaults(**vd_kwargs(vd['base']))(Base)
+    Sub = type('Sub%d' % tag, (Base,), {})
+    if vd.get('own') is not None:
+        Sub = view_defaults(**vd_kwargs(vd['own']))(Sub)
+    return Sub, ('go' if kind == 'class_attr' else None)
+
+
+_SCAN = {'dir': None, 'n': 0, 'mods': []}
+
+SCAN_TEMPLATE = {
+    'class2': """
+{base_deco}class Base:
+    def __init__(self, context, request):
+        self.context, self.request = context, request
+{own_deco}@DECO(**SETTINGS)
+class Sub(Base):
+    def __call__(self):
+        return BODY(self.context, self.request)
+""",
+    'class1': """
+{base_deco}class Base:
+    def __init__(self, request):
+        self.request = request
+{own_deco}@DECO(**SETTINGS)
+class Sub(Base):
+    def __call__(self):
+        return BODY(REQ_CTX(self.request), self.request)
+""",
+    'class_attr': """
+{base_deco}class Base:
+    def __init__(self, context, request):
+        self.context, self.request = context, request
+{own_deco}class Sub(Base):
+    @DECO(**SETTINGS)
+    def go(self):
+        return BODY(self.context, self.request)
+""",
+}
+
+
+def scan_register(config, world, v, deco, settings):
+    """write a module holding the class view with its `@view_config`-style decorator, import it from a scratch
+    directory outside /repo and /verif, and `config.scan()` it (the statement takes effect where it is written)"""
+    if _SCAN['dir'] is None or not os.path.isdir(_SCAN['dir']):
+        _SCAN['dir'] = tempfile.mkdtemp(prefix='verif_c05_scan_')
+    _SCAN['n'] += 1
+    name = 'verif_c05_scan_%d' % _SCAN['n']
+    vd = v.get('vd') or {}
+    src = 'from pyramid.view import view_defaults\n' + SCAN_TEMPLATE[v['kind']].format(
+        base_deco='@view_defaults(**VD_BASE)\n' if vd.get('base') is not None else '',
+        own_deco='@view_defaults(**VD_OWN)\n' if vd.get('own') is not None else '')
+    fn = os.path.join(_SCAN['dir'], name + '.py')
+    with open(fn, 'w') as f:
+        f.write(src)
+    spec = importlib.util.spec_from_file_location(name, fn)
+    mod = importlib.util.module_from_spec(spec)
+    mod.DECO, mod.SETTINGS = deco, settings
+    mod.BODY = make_body(world, v['tag'], v.get('act', 'ok'), v.get('renderer'))
+    mod.REQ_CTX = req_ctx
+    if vd.get('base') is not None:
+        mod.VD_BASE = vd_kwargs(vd['base'])
+    if vd.get('own') is not None:
+        mod.VD_OWN = vd_kwargs(vd['own'])
+    sys.modules[name] = mod
+    _SCAN['mods'].append(name)
+    spec.loader.exec_module(mod)
+    world.views[v['tag']] = mod.Sub
+    config.scan(mod)
+
+
+def cleanup_scan():
+    for name in _SCAN['mods']:
+        sys.modules.pop(name, None)
+    _SCAN['mods'] = []
+    if _SCAN['dir'] and os.path.isdir(_SCAN['dir']):
+        shutil.rmtree(_SCAN['dir'], ignore_errors=True)
+    _SCAN['dir'] = None
+
+
 _STATIC_DIR = [None]
 
 
@@ -287,6 +408,7 @@ def static_dir():
 
 
 def cleanup_static():
+    cleanup_scan()
     if _STATIC_DIR[0] and os.path.isdir(_STATIC_DIR[0]):
         shutil.rmtree(_STATIC_DIR[0], ignore_errors=True)
     _STATIC_DIR[0] = None
@@ -333,8 +455,10 @@ def apply_stmt(config, world, st, module_name):
                 kw['permission'] = perm_value(v['perm'])
             config.add_static_view('static', static_dir(), **kw)
             return
-        view, attr = make_view(world, v)
-        world.views[v['tag']] = view
+        scan = v.get('via') == 'scan' and v.get('kind') in CLASS_KINDS
+        view, attr = (None, None) if scan else make_view(world, v)
+        if not scan:
+            world.views[v['tag']] = view
         if attr:
             kw['attr'] = attr
         if v.get('renderer'):
@@ -354,13 +478,25 @@ def apply_stmt(config, world, st, module_name):
                 kw['context'] = CTX_CLASSES[v['ctx']]
             if v.get('exception_only'):
                 kw['exception_only'] = True
-            config.add_view(view, name=v.get('name', ''), **kw)
+            if scan:
+                scan_register(config, world, v, view_config, dict(kw, name=v.get('name', '')))
+            else:
+                config.add_view(view, name=v.get('name', ''), **kw)
         elif d == 'forbidden':
-            config.add_forbidden_view(view, **kw)
+            if scan:
+                scan_register(config, world, v, forbidden_view_config, kw)
+            else:
+                config.add_forbidden_view(view, **kw)
         elif d == 'notfound':
-            config.add_notfound_view(view, **kw)
+            if scan:
+                scan_register(config, world, v, notfound_view_config, kw)
+            else:
+                config.add_notfound_view(view, **kw)
         elif d == 'excview':
-            config.add_exception_view(view, context=CTX_CLASSES[v.get('ctx') or 'Exception'], **kw)
+            if scan:
+                scan_register(config, world, v, exception_view_config, dict(kw, context=CTX_CLASSES[v.get('ctx') or 'Exception']))
+            else:
+                config.add_exception_view(view, context=CTX_CLASSES[v.get('ctx') or 'Exception'], **kw)
         else:
             raise ValueError(d)
     else:
@@ -526,6 +662,13 @@ def perm_json(p):
     return PERM_IDS.get(p, 9)
 
 
+def vd_json(v, which):
+    vd = v.get('vd') or {}
+    if v.get('kind') not in CLASS_KINDS or vd.get(which) is None:
+        return None
+    return [None if vd[which] == 'absent' else perm_json(vd[which])]
+
+
 def view_json(v, orders):
     d = v.get('dir', 'view')
     return {'k': 'view', 'dir': DIR_IDS[d], 'tag': v['tag'],
@@ -537,7 +680,8 @@ def view_json(v, orders):
             'order': orders.get(str(v['tag']), orders.get(v['tag'], MAX_ORDER)),
             'preds': sorted(PRED_IDS[p] for p in v.get('preds', [])),
             'wrapper': NAME_IDS[v['wrapper']] if v.get('wrapper') else None,
-            'act': ACT_IDS[v.get('act', 'ok')]}
+            'act': ACT_IDS[v.get('act', 'ok')],
+            'vdown': vd_json(v, 'own'), 'vdbase': vd_json(v, 'base')}
 
 
 DEFAULT_EXC_VIEW = {'tag': 0, 'name': 0, 'route': 0, 'cls': 15, 'isexc': True, 'exconly': False, 'perm': None,
@@ -609,6 +753,12 @@ def effective_perm(case, st, exc_variant):
     p = st.get('perm')
     if d == 'static' and p is None:
         p = 'NPR'                        # add_static_view hands add_view an explicit NO_PERMISSION_REQUIRED
+    if p is None and st.get('kind') in CLASS_KINDS and st.get('vd'):
+        # the class-level default of `@view_defaults`: the class's own one if it has one, else an inherited one
+        vd = st['vd']
+        cd = vd.get('own') if vd.get('own') is not None else vd.get('base')
+        if cd is not None and cd != 'absent':
+            p = cd
     if p is None and not exc_variant:
         p = default_perm(case)
     if p is None or p == 'NPR':
@@ -780,6 +930,16 @@ def gen_config(rng, big=False):
                 v['ctx'] = rng.choice(['Exception', 'E1', 'E2', 'HTTPForbidden', 'HTTPNotFound'])
             if rng.random() < 0.85:
                 v['act'] = 'ok'
+        if v['kind'] in CLASS_KINDS:
+            # class views: `@view_defaults` on the class itself, on a base class, on both; registered imperatively or
+            # through a `@view_config`-style decorator + `config.scan()` of a generated module
+            if rng.random() < 0.5:
+                levels = [None, 'absent', 'p1', 'p2', 'NPR'] if d == 'view' else [None, 'absent']
+                vd = {'base': rng.choice(levels), 'own': rng.choice([None] + levels)}
+                if vd['base'] is not None or vd['own'] is not None:
+                    v['vd'] = vd
+            if rng.random() < 0.4:
+                v['via'] = 'scan'
         nm = v.get('name', '')
         if nm != 'w2' and rng.random() < 0.3:
             v['wrapper'] = rng.choice([w for w in ('w1', 'w2') if w != nm])
@@ -909,7 +1069,7 @@ def shrink_case(case, pred):
         if changed:
             continue
         for i, st in enumerate(cur['stmts']):
-            for key in ('decorator', 'renderer', 'wrapper', 'preds', 'route', 'kind', 'style', 'how'):
+            for key in ('decorator', 'renderer', 'wrapper', 'preds', 'route', 'via', 'style', 'how'):
                 if key in st:
                     st2 = {k: v for k, v in st.items() if k != key}
                     c = dict(cur, stmts=cur['stmts'][:i] + [st2] + cur['stmts'][i + 1:])
@@ -980,6 +1140,10 @@ def run_stream(ctx, cases, stats, res, label):
                 if st.get('dir', 'view') == 'view':
                     vfutil.bump(stats, 'perm_' + str(st.get('perm')))
                     vfutil.bump(stats, 'kind_' + st.get('kind', 'func2'))
+                if st.get('vd'):
+                    vfutil.bump(stats, 'vd_base_%s_own_%s' % (st['vd'].get('base'), st['vd'].get('own')))
+                if st.get('via') == 'scan':
+                    vfutil.bump(stats, 'via_scan')
                 for f in ('wrapper', 'decorator', 'renderer', 'preds', 'route', 'exception_only'):
                     if st.get(f):
                         vfutil.bump(stats, 'with_' + f)
@@ -1059,12 +1223,13 @@ def run(ctx):
     run_stream(ctx, corpus, stats, res, 'corpus')
     if ctx.tier == 'thorough':
         # small-scope exhaustive part: every option combination of one view (see small_scope_cases)
-        scope = list(small_scope_cases())
+        scope = list(small_scope_cases()) + list(view_defaults_cube())
         for i in range(0, len(scope), 500):
             run_stream(ctx, scope[i:i + 500], stats, res, 'small-scope')
         res['exhaustive'] = True
         res['notes'].append('small-scope enumeration: %d cases (policy x default permission x permission x grant/refuse x 3 callable '
-                            'kinds x {plain, wrapper, exception view, dual, forbidden/notfound, multiview, static, route})' % len(scope))
+                            'kinds x {plain, wrapper, exception view, dual, forbidden/notfound, multiview, static, route}) + the view_defaults cube (base x own x '
+                            'explicit x add_view/scan x default permission x grant/refuse)' % len(scope))
     n_cfg = ctx.n(700, 9000)
     cases = []
     for case in gen_cases(ctx.rng, n_cfg, 3, big=(ctx.tier == 'thorough')):
@@ -1128,6 +1293,27 @@ def small_scope_cases():
             yield {'stmts': stmts, 'deny': deny, 'probe': {'kind': 'vep', 'ctx': 2, 'name': '', 'params': params}}
 
 
+def view_defaults_cube():
+    """base class x the class itself {undecorated, decorated without permission, p1, p2, marker} x explicit argument
+    {absent, p2, marker} x {add_view, scan} x 3 class kinds (rotating) x default permission {unset, p1} x policy
+    grant-all / refuse-all"""
+    levels = [None, 'absent', 'p1', 'p2', 'NPR']
+    i = 0
+    for base, own, perm, via, dflt, refuse in itertools.product(levels, levels, [None, 'p2', 'NPR'], ['add_view', 'scan'],
+                                                                 [None, 'p1'], [False, True]):
+        if base is None and own is None:
+            continue
+        i += 1
+        v = {'k': 'view', 'dir': 'view', 'tag': 1, 'name': '', 'ctx': None, 'perm': perm, 'kind': CLASS_KINDS[i % 3], 'act': 'ok',
+             'vd': {'base': base, 'own': own}, 'via': via}
+        stmts = [v]
+        if dflt:
+            stmts.append({'k': 'defperm', 'perm': dflt})
+        stmts.append({'k': 'policy', 'how': 'security'})
+        deny = [[c, p] for c in DENY_CTX for p in (1, 2)] if refuse else []
+        yield {'stmts': stmts, 'deny': deny, 'probe': {'kind': 'router', 'path': '/', 'params': []}}
+
+
 def search(ctx):
     """after a break: evaluate the property oracle on the implementation only (corpus, the small-scope
     enumeration, then a random stream at thorough volume)"""
@@ -1149,6 +1335,7 @@ def search(ctx):
                 viol.append(_violation(case, ev['impl'], detail, finding))
     scan([c for _, c in ctx.corpus()])
     scan(small_scope_cases())
+    scan(view_defaults_cube())
     exhaustive = ctx.time_left() >= 45
     if not [v for v in viol if not v.get('finding')]:
         scan(gen_cases(ctx.rng, ctx.n(1500, 6000), 3, big=True))
